@@ -749,3 +749,12 @@ func EmuDispatchBody(k *Kernel, g Geometry, batchSizes []int) explore.Body {
 		return nil
 	}
 }
+
+// DriverCodeObject is the kernel as a code object the driver can launch on a real platform (same register
+// convention as in the CU world: s[0:1] kernarg pointer, s2 work-group id x, v0 local id x; kernarg layout
+// +0 in, +8 out, +16 mask, +24 tmp, +32 in2, +40 out2).
+func DriverCodeObject(k *Kernel, wgSize int) *insts.KernelCodeObject {
+	co, _ := codeObject(k, Geometry{WGSize: wgSize, NumWG: 1})
+	co.KernargSegmentByteSize = 48
+	return co
+}
